@@ -158,6 +158,12 @@ Definition GP_e (e : celse) : Prop := forall F st text env,
 Definition GP_k (k : ccases) : Prop := forall F st text env sv,
   (cfuel + kdepth k < F)%nat -> wok st -> agrees st env -> envok env ->
   kout (c_ij cf) (mode st) go_print_text denv callee env sv k = Some text -> bres (switch_cases (walk cf F) sv (knodes k)) st text.
+(* the parameters of a call: evaluated / rendered in the caller's scope in order, set in the innermost frame of the callee's data *)
+Definition GP_p (ps : cparams) : Prop := forall F st cd base cenv env,
+  (cfuel + pdepth ps < F)%nat -> agrees st env -> envok env ->
+  pout (c_ij cf) (mode st) go_print_text denv callee env ps base = Some cenv -> cd <> [] -> (forall k, sc_lookup cd k = base k) -> envok base ->
+  exists cd' st', call_params (walk cf F) (pnodes ps) cd st = (Ok cd', st') /\ pres st st'
+                  /\ cd' <> [] /\ (forall k, sc_lookup cd' k = cenv k) /\ envok cenv.
 
 Lemma envok_set env k v : envok env -> core_value v = true -> envok (env_set env k v).
 Proof. intros H Hv q x. unfold env_set. destruct (bstr_eqb q k); [intro E; inversion E; subst; exact Hv|apply H]. Qed.
@@ -194,13 +200,17 @@ Proof.
     + destruct (for_out _ _ _ _ _); [|discriminate]. intro E; inversion E; subst; exact Hc.
   - rewrite sout_css. destruct e as [x|]; [destruct (ceval (c_ij cf) env x); [|discriminate]; destruct (scalar_string v); [|discriminate]|];
       intro E; inversion E; subst; exact Hc.
-  - rewrite sout_call. destruct (cdata_env _ _ _ _); [|discriminate]. destruct (cparams_env _ _ _ _); [|discriminate].
+  - rewrite sout_call. destruct (cdata_env _ _ _ _); [|discriminate]. destruct (pout _ _ _ _ _ _ _ _); [|discriminate].
     destruct (callee _ _); [|discriminate]. intro E; inversion E; subst; exact Hc.
 Qed.
 
 (* ---- calls ---- *)
-Lemma snode_call name d ps : snode (SCall name d ps) = NCall 0 name (cdata_all d) (cdata_node d) (map cparam_node ps). Proof. reflexivity. Qed.
-Lemma sdepth_call name d ps : sdepth (SCall name d ps) = S (S (Nat.max (ddepth d) (cdepths (map snd ps)))). Proof. reflexivity. Qed.
+Lemma snode_call name d ps : snode (SCall name d ps) = NCall 0 name (cdata_all d) (cdata_node d) (pnodes ps). Proof. reflexivity. Qed.
+Lemma sdepth_call name d ps : sdepth (SCall name d ps) = S (S (Nat.max (ddepth d) (pdepth ps))). Proof. reflexivity. Qed.
+Lemma pnodes_val k e r : pnodes (PVal k e r) = NParamValue 0 k (cnode e) :: pnodes r. Proof. reflexivity. Qed.
+Lemma pnodes_cont k body r : pnodes (PCont k body r) = NParamContent 0 k (NList 0 (bnodes body)) :: pnodes r. Proof. reflexivity. Qed.
+Lemma pdepth_val k e r : pdepth (PVal k e r) = Nat.max (cdepth e) (pdepth r). Proof. reflexivity. Qed.
+Lemma pdepth_cont k body r : pdepth (PCont k body r) = Nat.max (bdepth body) (pdepth r). Proof. reflexivity. Qed.
 
 Lemma go_core st env e v : agrees st env -> envok env -> ceval (c_ij cf) env e = Some v -> core_value v = true.
 Proof.
@@ -238,24 +248,6 @@ Proof.
     split.
     + intro k. cbn [sc_push new_scope sc_lookup fresh_frame f_vars]. unfold assoc_s at 1. destruct (assoc_s k m); reflexivity.
     + intros k x Hk. exact (core_assoc k m x Hcm Hk).
-Qed.
-
-(* the parameters: evaluated in the caller's scope, set in the innermost frame of the callee's data *)
-Lemma go_call_params F env ps : envok env -> (forall y, In y (map snd ps) -> (cdepth y < F)%nat) -> forall st cd base cenv, agrees st env ->
-  cparams_env (c_ij cf) env ps base = Some cenv -> cd <> [] -> (forall k, sc_lookup cd k = base k) -> envok base ->
-  exists cd' st', call_params (walk cf F) (map cparam_node ps) cd st = (Ok cd', st') /\ pres st st'
-                  /\ cd' <> [] /\ (forall k, sc_lookup cd' k = cenv k) /\ envok cenv.
-Proof.
-  intros Hc. induction ps as [|[k e] r IH]; intros Hd st cd base cenv Ha E Hn Hl Hb; cbn [cparams_env map call_params cparam_node fst snd] in *.
-  - inversion E; subst. exists cd, st. split; [reflexivity|]. split; [apply pres_refl|auto].
-  - destruct (is_ident k); [|discriminate]. destruct (ceval (c_ij cf) env e) as [v|] eqn:Ev; [|discriminate].
-    destruct (go_eval F e st v env Ha Hc (Hd e (or_introl eq_refl)) Ev) as (st2 & E2 & P2).
-    unfold mbind at 1. rewrite E2.
-    destruct (IH (fun y Hy => Hd y (or_intror Hy)) st2 (sc_set cd k v) (env_set base k v) cenv (agrees_pres _ _ _ P2 Ha) E) as (cd' & st3 & E3 & P3 & R).
-    + destruct cd; [congruence|discriminate].
-    + intro q. rewrite sc_lookup_set by exact Hn. unfold env_set. rewrite Hl. reflexivity.
-    + apply envok_set; [exact Hb|exact (go_core st env e v Ha Hc Ev)].
-    + exists cd', st3. split; [exact E3|]. split; [eapply pres_trans; eauto|exact R].
 Qed.
 
 (* a block: NList pushes an (empty) frame, walks its statements, pops *)
@@ -501,7 +493,7 @@ Proof.
       unfold sc_pop. rewrite T4, T3. subst stp. cbn. apply P.
 Qed.
 
-Theorem interp_all : (forall s, GP_s s) /\ (forall b, GP_b b) /\ (forall e, GP_e e) /\ (forall k, GP_k k).
+Theorem interp_all : (forall s, GP_s s) /\ (forall b, GP_b b) /\ (forall e, GP_e e) /\ (forall k, GP_k k) /\ (forall ps, GP_p ps).
 Proof.
   apply cstmt_mutind.
   - (* raw text *) intros t f st text env env' Hf Hg Hn Ha Hc E. rewrite sout_raw in E. inversion E; subst.
@@ -644,9 +636,9 @@ Proof.
         unfold mbind at 1. rewrite E3. exists st3, [text], VUndef. split; [reflexivity|].
         split; [exact (wrote_l _ _ _ _ (pres_wsame _ _ P1) W3)|]. split; [cbn; apply app_nil_r|]. split; [exact M3|exact C3]. }
     destruct Hmain as (-> & Hbres). apply bres_sres; auto.
-  - (* call *) intros name d ps f st text env env' Hf Hg Hn Ha Hc E. rewrite sout_call in E.
+  - (* call *) intros name d ps IHp f st text env env' Hf Hg Hn Ha Hc E. rewrite sout_call in E.
     destruct (cdata_env (c_ij cf) denv env d) as [base|] eqn:Ed; [|discriminate].
-    destruct (cparams_env (c_ij cf) env ps base) as [cenv|] eqn:Ep; [|discriminate].
+    destruct (pout (c_ij cf) (mode st) go_print_text denv callee env ps base) as [cenv|] eqn:Ep; [|discriminate].
     destruct (callee name cenv) as [t|] eqn:Ec; [|discriminate]. inversion E; subst. clear E.
     destruct (Hfind name cenv text Ec) as (tm & Eft & Hrun).
     apply bres_sres; auto. rewrite sdepth_call in Hf. destruct f as [|F]; [lia|]. unfold bres0. rewrite walk_unfold, snode_call. cbn [walk_node]. rewrite Eft.
@@ -655,9 +647,8 @@ Proof.
     destruct (go_call_data F d st1 env' base (agrees_pres _ _ _ P1 Ha) Hc ltac:(lia) Ed) as (cd & st2 & E2 & P2 & Ncd & Lcd & Hbase).
     unfold mbind at 1. rewrite E2.
     pose proof (pres_trans _ _ _ P1 P2) as P12.
-    destruct (go_call_params F env' ps Hc) with (st := st2) (cd := cd) (base := base) (cenv := cenv) as (cd' & st3 & E3 & P3 & Ncd' & Lcd' & Hcenv); auto.
-    { intros y Hy. pose proof (cdepths_le y _ Hy). lia. }
-    { exact (agrees_pres _ _ _ P12 Ha). }
+    destruct (IHp F st2 cd base cenv env' ltac:(lia) (agrees_pres _ _ _ P12 Ha) Hc) as (cd' & st3 & E3 & P3 & Ncd' & Lcd' & Hcenv); auto.
+    { rewrite (proj1 (proj2 P12)). exact Ep. }
     unfold mbind at 1. rewrite E3. unfold mbind at 1. cbn [modify].
     pose proof (pres_trans _ _ _ P12 P3) as P13.
     set (st4 := set_cur st3 0).
@@ -708,5 +699,29 @@ Proof.
       * lia. * eapply agrees_pres; eauto. * rewrite Mo. exact E.
     + apply (bres0_pres st _ st2 text P). apply (IHr F st2 text env sv); auto.
       * lia. * eapply agrees_pres; eauto. * rewrite Mo. exact E.
+  - (* PNil *) intros F st cd base cenv env Hf Ha Hc E Hn Hl Hb. rewrite pout_nil in E. inversion E; subst.
+    exists cd, st. split; [reflexivity|]. split; [apply pres_refl|auto].
+  - (* PVal *) intros k e r IHr F st cd base cenv env Hf Ha Hc E Hn Hl Hb. rewrite pout_val in E. rewrite pdepth_val in Hf. rewrite pnodes_val. cbn [call_params].
+    destruct (is_ident k); [|discriminate]. destruct (ceval (c_ij cf) env e) as [v|] eqn:Ev; [|discriminate].
+    destruct (go_eval F e st v env Ha Hc ltac:(lia) Ev) as (st2 & E2 & P2).
+    unfold mbind at 1. rewrite E2.
+    destruct (IHr F st2 (sc_set cd k v) (env_set base k v) cenv env ltac:(lia) (agrees_pres _ _ _ P2 Ha) Hc) as (cd' & st3 & E3 & P3 & R).
+    + rewrite (proj1 (proj2 P2)). exact E.
+    + destruct cd; [congruence|discriminate].
+    + intro q. rewrite sc_lookup_set by exact Hn. unfold env_set. rewrite Hl. reflexivity.
+    + apply envok_set; [exact Hb|exact (go_core st env e v Ha Hc Ev)].
+    + exists cd', st3. split; [exact E3|]. split; [eapply pres_trans; eauto|exact R].
+  - (* PCont *) intros k body IHb r IHr F st cd base cenv env Hf Ha Hc E Hn Hl Hb. rewrite pout_cont in E. rewrite pdepth_cont in Hf. rewrite pnodes_cont. cbn [call_params].
+    destruct (is_ident k); [|discriminate].
+    destruct (bout (c_ij cf) (mode st) go_print_text denv callee env body) as [t|] eqn:Et; [|discriminate].
+    destruct (go_render_block body F st t env IHb ltac:(lia) Ha Hc Et) as (st2 & E2 & S2 & C2 & M2).
+    unfold mbind at 1. rewrite E2.
+    assert (P2 : pres st st2) by (destruct S2 as (O2 & B2 & L2 & Y2); repeat split; assumption).
+    destruct (IHr F st2 (sc_set cd k (VStr t)) (env_set base k (VStr t)) cenv env ltac:(lia) (agrees_ctx _ _ _ C2 Ha) Hc) as (cd' & st3 & E3 & P3 & R).
+    + rewrite M2. exact E.
+    + destruct cd; [congruence|discriminate].
+    + intro q. rewrite sc_lookup_set by exact Hn. unfold env_set. rewrite Hl. reflexivity.
+    + apply envok_set; [exact Hb|reflexivity].
+    + exists cd', st3. split; [exact E3|]. split; [eapply pres_trans; eauto|exact R].
 Qed.
 End GoStmts.
